@@ -67,7 +67,11 @@ def check_output(c, out, group, bt, P, E, k, symm, agg, label):
         c.check(cols["count"].tolist() == [want[x] for x in wk], "coarse-values-differ",
                 f"[{label}] coarsened counts != sums over the k x k blocks",
                 lambda: {"got": cols["count"].tolist()[:30], "want": [want[x] for x in wk][:30]})
-        if E is not None and "score" in cols:
+        if E is not None and not c.check("score" in cols, "requested-value-column-missing-from-output",
+                                         f"[{label}] value column 'score' was requested (columns=['count','score']) but the "
+                                         f"coarsened pixel table has no such column"):
+            pass
+        elif E is not None:
             wantE = model.ref_coarsen(bt, E, k, agg or "sum")
             c.check(cols["score"].tolist() == [wantE[x] for x in wk], f"coarse-extra-column-differs:{agg or 'sum'}",
                     f"[{label}] extra column != block {agg or 'sum'}")
